@@ -246,6 +246,7 @@ pub fn checks(tier: Tier) -> Vec<Check> {
         classify: Box::new(classify),
         rule: RULE,
         exhaustive: false,
+            enumerate: None,
     });
     v
 }
@@ -426,6 +427,7 @@ pub fn vector_checks(tier: Tier) -> Vec<Check> {
                 classify: Box::new(classify_vec),
                 rule: RULE_VEC,
                 exhaustive: false,
+            enumerate: None,
             });
         }
     }
@@ -441,6 +443,7 @@ pub fn vector_checks(tier: Tier) -> Vec<Check> {
                 classify: Box::new(classify_vec),
                 rule: RULE_VEC,
                 exhaustive: false,
+            enumerate: None,
             });
         }
     }
